@@ -34,8 +34,12 @@ from vlib import core, corr
 from . import c02_ref as R
 from . import c02_twin as T
 from . import c02_keyphase as K
+from . import c02_keyderive as KD
 
-DEPENDS = ["PacketNumber", "Protect", "KeyPhase", "PnGen", "PacketNumberProofs", "ProtectProofs", "KeyPhaseProofs", "Base", "Tok", "C02"]
+GENERATORS = ["c02_pure", "c02_keys"]
+
+DEPENDS = ["PacketNumber", "Protect", "KeyPhase", "PnGen", "PacketNumberProofs", "ProtectProofs", "KeyPhaseProofs", "Base", "Tok", "C02",
+           "C02Keys", "KeyDerive", "KeyDeriveProofs", "KeyPhaseSec", "KeyPhaseSecProofs", "PacketRecv", "PacketRecvProofs"]
 TRUSTED_BASE = [
     "extraction (ExtrOcamlBasic only; Z kept as the extracted inductive) + coq/extract/driver.ml for running the models",
     "harness/props/c02.py + c02_ref.py (independent RFC 9001/9369 implementation; decides what 'agree' means) and the "
@@ -47,8 +51,17 @@ TRUSTED_BASE = [
     "modelled, not verified: crypto.py's key-phase handling (CryptoContext.decrypt_packet's choice of keys, next_key_phase, "
     "apply_key_phase, CryptoPair.update_key/_update_key/key_phase) as coq/model/KeyPhase.v with key material abstracted to its generation",
     "modelled, not verified: _crypto.c AEAD nonce / HeaderProtection_apply / _remove and crypto.py "
-    "CryptoContext.encrypt_packet / decrypt_packet as Gallina functions; key derivation (HKDF labels, salts) is tied only "
-    "by the differential and the RFC vectors, not modelled in Coq; OpenSSL is outside",
+    "CryptoContext.encrypt_packet / decrypt_packet as Gallina functions; OpenSSL is outside",
+    "modelled, not verified: tls.py hkdf_label / hkdf_expand_label / hkdf_extract and crypto.py derive_key_iv_hp / CryptoContext.setup / "
+    "next_key_phase / apply_key_phase / CryptoPair.setup_initial, packet.py's Retry key selection as coq/model/KeyDerive.v over an HMAC "
+    "oracle (HMAC, SHA-2 and `cryptography`'s HKDFExpand are outside; the keyderive suite compares the model, fed with `cryptography` HMAC "
+    "answers for the reference's queries, with the real functions on every run); coq/model/KeyPhaseSec.v = KeyPhase.v with key material",
+    "tools/gen/c02_keys.py: reads labels, salts, lengths, code points and Retry keys from the current source (ast) and refuses when "
+    "the shape of a derivation function differs from the pinned one; trusted to read correctly (cross-checked by the keyderive suite)",
+    "coq/model/PacketRecv.v (receive_datagram's decisions around decryption) is a model only, not executed against the code; the "
+    "code-level counterpart of its theorem is the state-digest oracle of the connection scenarios and the paired runs",
+    "harness/props/c02_keyderive.py: key / iv / hp of a real CryptoContext are identified by behaviour (probe sealed by ctx.aead, mask "
+    "of ctx.hp) because the C objects have no accessors",
 ]
 ASSUMPTIONS = [
     "H-AEAD (Section hypotheses of altered_rejected / retry_tag_binds): open k n a c = Some p <-> c = seal k n a p "
@@ -56,6 +69,12 @@ ASSUMPTIONS = [
     "key_generations_in_step / genuine_packet_verdict / fresh_packet_accepted: an endpoint requests a key update only while it is not "
     "ahead of its peer (RFC 9001 6.1; aioquic leaves that to the application) and injected packets are inauthentic (ideal AEAD)",
     "the header-protection mask is an arbitrary function of the hp key and the 16-byte sample (Section variable)",
+    "H-HMAC (premises hmac_ideal / hmac_len of derived_secrets_separated, initial_keys_depend_on_dcid_and_version, "
+    "key_generations_have_distinct_secrets and chain_premises): HMAC truncated to >= 96 bits has no collisions between keys of equal "
+    "length (equal outputs => same hash, key, message) and the digest has digest_size bytes; the real collision probability is ~2^-96 "
+    "per pair, not 0",
+    "chain_premises (sealed_generation_opens_only_itself, secrets_refine_generations, genuine_packet_verdict_secrets): known cipher suite, "
+    "first 1-RTT secrets of digest length, and neither key-update chain ever returns to its first secret",
     "hp_roundtrip is stated for packets whose sample lies inside the packet (pn length + ciphertext >= 20) and "
     "total length <= 1500: outside that _crypto.c reads/writes out of bounds (property C04)",
 ]
@@ -1185,6 +1204,21 @@ def suites(ctx, known):
     return pn, pt, kp
 
 
+def kd_suite(ctx, known):
+    return corr.Suite(ctx, "keyderive", "exec_keyderive", KD.encode, KD.impl, lambda c: known.filter(KD.oracle(c), c), nontrivial=KD.nontrivial)
+
+
+def run_keyderive(ctx, known):
+    kd = kd_suite(ctx, known)
+    kd.run(corr.load_corpus("C02", "keyderive"), "corpus")
+    cases = KD.gen_cases(ctx.rng, ctx.n(900, 6000), ctx.thorough)
+    for i in range(0, len(cases), 500):
+        kd.run(cases[i:i + 500])
+    for c in cases:
+        kd.stats["outcome_histogram"][KD.histogram_key(c)] += 1
+    return kd
+
+
 def run(ctx):
     known = Known(ctx)
     pn, pt, kp = suites(ctx, known)
@@ -1213,16 +1247,19 @@ def run(ctx):
         kp.stats["outcome_histogram"]["max-generation-%d" % max([0] + [t for t in K.trace(_SELF, c)[0][-10:] if isinstance(t, int)])] += 1
     st = run_connection(ctx, known, extra)
     tw = run_twin(ctx, known, extra)
+    kd = run_keyderive(ctx, known)
     extra["known_finding_cases"] = dict(known.hits)
     extra["implementation_variant"] = {"v2_key_update_label": (probe()["v2_ku_label"] or b"quicv2 ku").decode(),
                                        "truncated_pn_signed": probe()["signed_pn"]}
     extra["exhaustive_small_scope"] = "decode_packet_number: all 256 truncated values x %d expected values (8-bit encoding)" % len(es)
     cov = corr.merge_coverage(
-        [pn, pt, kp],
+        [pn, pt, kp, kd],
         "pn: boundary tables + random (expected, truncated, width) and all 256 truncated values for ranges of expected around 0, "
         "2^32 and 2^62; protect: tuples (kind in hp-apply/hp-remove/nonce/encrypt/decrypt, suite, version, key phases of sender and "
         "receiver, header form and length, pn length, payload size 0..max, pn, expected pn, optional single-byte corruption) with bytes "
-        "derived from a per-case seed; connection: live flights with every byte (bit) of every packet altered; distinct = distinct token "
+        "derived from a per-case seed; keyderive: calls of hkdf_label / hkdf_expand_label / derive_key_iv_hp / setup_initial / "
+        "n key updates / Retry key selection over 3 suites + an unknown one x versions 1, 2 and others x both roles x label, context, "
+        "secret and output lengths at the struct / HKDF limits, HMAC answers as data; connection: live flights with every byte (bit) of every packet altered; distinct = distinct token "
         "encoding, non-trivial = in the property's domain / produces a packet",
         extra)
     cov["evaluations"] += st["mutants"] + st["genuine"] + extra.get("rfc_vectors", 0) + tw["runs"]
@@ -1241,6 +1278,10 @@ def replay(ctx, rep):
     elif isinstance(case, dict) and "ops" in case:
         d, e, g = kp.disagree(case)
         res["keyphase"] = {"disagree": d, "impl": e, "model": g, "oracle": kp_oracle(case)}
+    elif isinstance(case, dict) and case.get("kind") in ("label", "expand", "derive", "initial", "update", "retry"):
+        kd = kd_suite(ctx, known)
+        d, e, g = kd.disagree(case)
+        res["keyderive"] = {"disagree": d, "impl": e[:80], "model": g[:80], "oracle": KD.oracle(case)}
     elif isinstance(case, dict) and "kind" in case:
         d, e, g = pt.disagree(case)
         res["protect"] = {"disagree": d, "impl": e[:60], "model": g[:60], "oracle": pt_oracle_raw(case)}
